@@ -309,6 +309,18 @@ def _native_member(r, s, lead_index, time_value=None):
     return bool(ok)
 
 
+def _structural(clause):
+    """a result whose layout differs from the one the clause describes (missing variable, other rank) falsifies the clause"""
+    def wrapped(a, r):
+        if not hasattr(a, "_snap"):
+            return clause(a, r)
+        try:
+            return clause(a, r)
+        except (IndexError, KeyError, AttributeError, TypeError):
+            return False
+    return wrapped
+
+
 def member_is(i_of):
     """the result is member i of the operand: variance density, moments, depth, position and time of member i, on the
     operand's spectral grid, an object of the operand's class"""
@@ -331,7 +343,7 @@ def member_is(i_of):
         if sp.two_d:
             cs.append(r.dataset.coords[NAME_D]._a is a.self.dataset.coords[NAME_D]._a)
         return And(*cs)
-    return clause
+    return _structural(clause)
 
 
 def members_are(lo_of, n_of):
@@ -356,7 +368,7 @@ def members_are(lo_of, n_of):
         cs.append(forall(0, n, lambda q: eq(_time_of(r, (q,)), a.self.dataset.coords["time"][lo + q]), "q"))
         cs.append(r.dataset.coords[NAME_F]._a is a.self.dataset.coords[NAME_F]._a)
         return And(*cs)
-    return clause
+    return _structural(clause)
 
 
 REQ_SIZES = ("sizes", lambda a: And(Spec(a.self).np_ >= 0, Spec(a.self).nf >= 0, (Spec(a.self).nd >= 0) if Spec(a.self).two_d else True))
@@ -395,7 +407,103 @@ isel_slice = Contract(S + "DatasetWrapper.isel", label="isel_slice", instances=[
                       options={"native_call": lambda kw, inst: kw["self"].isel(time=slice(kw["lo"], kw["hi"]))},
                       witness=[_wit(k, lo=lo, hi=hi) for k in KINDS for lo, hi in ((0, 2), (1, 1), (1, 2))])
 
-NEW = [isel_int, isel_slice]
+
+# ---- __getitem__: positional index (leading index, then one item per spectral dimension)
+def _full(kind):
+    return tuple(_Slice(None, None, None) for _ in SDIMS[kind])
+
+
+def _p_getitem(kind, how):
+    def p(mk):
+        sp = spectrum(mk, kind)
+        args = {"self": sp}
+        if how == "int":
+            args["i"] = mk.int("i")
+        elif how == "slice":
+            args["lo"], args["hi"] = mk.int("lo"), mk.int("hi")
+        else:
+            args["i"], args["flo"], args["fhi"] = mk.int("i"), mk.int("flo"), mk.int("fhi")
+        return _record(mk, ("self",))(args)
+    return p
+
+
+def _getitem_item(kind, how, g, sl):
+    """the index tuple, built from symbolic (sl = Slice) or native (sl = slice) parts"""
+    full = tuple(sl(None, None, None) for _ in SDIMS[kind])
+    if how == "int":
+        return (g("i"),) + full
+    if how == "slice":
+        return (sl(g("lo"), g("hi"), None),) + full
+    return (g("i"), sl(g("flo"), g("fhi"), None)) + full[1:]
+
+
+def _getitem_call(kind, how):
+    def call(interp, st, fv, args):
+        return interp.call_function(st, fv, [], {"self": args["self"], "item": _getitem_item(kind, how, lambda n: args[n], _Slice)})
+    return call
+
+
+def _getitem_native(kw, inst):
+    kind, how = inst.split(",")
+    return kw["self"][_getitem_item(kind, how, lambda n: kw[n], slice)]
+
+
+def _fband_member(a, r):
+    """[i, flo:fhi]: member i on the frequencies flo..fhi-1 (values, frequency coordinate), scalars of member i"""
+    i, flo, fhi = a.i, a.flo, a.fhi
+    if not hasattr(r, "_o"):
+        s = a.self
+        ok = type(r) is type(s)
+        for v in _native_vars(s):
+            x = s.dataset[v].values[i]
+            ok = ok and _native_eq(r.dataset[v].values, x[flo:fhi] if x.ndim else x)
+        ok = ok and _native_eq(r.dataset["time"].values, s.dataset["time"].values[i]) and _native_eq(r.dataset[NAME_F].values, s.dataset[NAME_F].values[flo:fhi])
+        return bool(ok)
+    sp = Spec(a.self)
+    kind = _kind_of(a)
+    vs, src = r.dataset.vars, a.self.dataset.vars
+    n = fhi - flo
+    cs = [_same_class(a, r), set(vs) - {"time"} == _names(kind)]
+    for v in SPECV[kind]:
+        cs.append(vs[v].dims == SDIMS[kind])
+        cs.append(eq(vs[v].arr.shape[0], n))
+        if sp.two_d:
+            cs.append(forall(0, n, lambda j, v=v: forall(0, sp.nd, lambda k: _cell(vs[v], (j, k), src[v], (i, flo + j, k)), "k"), "j"))
+        else:
+            cs.append(forall(0, n, lambda j, v=v: _cell(vs[v], (j,), src[v], (i, flo + j)), "j"))
+    for v in SCALV:
+        cs.append(_cell(vs[v], (), src[v], (i,)))
+    cs.append(eq(_time_of(r, ()), a.self.dataset.coords["time"][i]))
+    cs.append(forall(0, n, lambda j: eq(r.dataset.coords[NAME_F][j], a.self.dataset.coords[NAME_F][flo + j]), "j"))
+    return And(*cs)
+
+
+_GI_REQ = {"int": ("index_in_range", lambda a: And(a.i >= 0, a.i < Spec(a.self).np_)),
+           "slice": ("slice_in_range", lambda a: And(a.lo >= 0, a.lo <= a.hi, a.hi <= Spec(a.self).np_)),
+           "fslice": ("index_and_frequency_slice_in_range", lambda a: And(a.i >= 0, a.i < Spec(a.self).np_, a.flo >= 0, a.flo <= a.fhi, a.fhi <= Spec(a.self).nf))}
+_GI_POST = {"int": ("result_is_member_i", member_is(lambda a: a.i)),
+            "slice": ("result_is_members_lo_to_hi_in_order", members_are(lambda a: a.lo, lambda a: a.hi - a.lo)),
+            "fslice": ("result_is_member_i_on_the_selected_frequencies", _structural(_fband_member))}
+_GI_WIT = {"int": [dict(i=0), dict(i=1)], "slice": [dict(lo=0, hi=2), dict(lo=1, hi=2)], "fslice": [dict(i=1, flo=2, fhi=5), dict(i=0, flo=0, fhi=11)]}
+
+
+def _getitem_contract(how):
+    insts = [(f"{k},{how}", _p_getitem(k, how)) for k in KINDS]
+    wits = []
+    for k in KINDS:
+        for kw in _GI_WIT[how]:
+            wits.append(lambda k=k, kw=kw: (f"{k},{how}", _wit(k, **kw)()[1]))
+    c = Contract(S + "WaveSpectrum.__getitem__", label="getitem_" + how, instances=insts, requires=[REQ_SIZES, _GI_REQ[how]],
+                 ensures=[("operand_unchanged_result_new", frame(("self",))), _GI_POST[how]], native=_native_spec,
+                 options={"native_call": _getitem_native}, witness=wits)
+    # per-instance call: the item tuple depends on the kind
+    c.call = lambda interp, st, fv, args: _getitem_call("2d" if NAME_D in st.deref(_ds_ref(st, args["self"])).fields["coords"] else "1d", how)(interp, st, fv, args)
+    return c
+
+
+getitem_cs = [_getitem_contract(h) for h in ("int", "slice", "fslice")]
+
+NEW = [isel_int, isel_slice] + getitem_cs
 
 def _bounded_restructure(tier, seed):
     """concatenate/select, flatten pairing, netCDF round trip and random operation sequences with bitwise operand snapshots
